@@ -20,3 +20,7 @@ package swagen31
 //@ mayemit validatedSpec
 //@ ensures gate: implies(result1 == nil, evcount(validatedSpec) == old(evcount(validatedSpec))+1 && evlast(validatedSpec, 0))
 //@ ensures once: evcount(validatedSpec) <= old(evcount(validatedSpec))+1
+
+// Validator-tag conversion: safety (C14).
+//@ func BuildSchemaValidationV31 props C14,C11 havocs
+//@ requires schema != nil
